@@ -37,7 +37,7 @@ def mk_tridonic(ctx, world, **over):
                   _reconnect_interval=ctx.int("interval", 0, 3600), _reconnect_limit=None, _reconnect_count=0,
                   _reconnect_task=None, connected=world.event(True, "connected"),
                   _command_semaphore=world.semaphore(2), _cmd_seq=world.seq_source(ctx.int("seq", 1, 255)),
-                  _outstanding=world.mapping(), _bus_watch_task=None, _bus_watch_data=ctx.track([]),
+                  _outstanding=world.mapping(), _bus_watch_task=MTask(world, None), _bus_watch_data=ctx.track([]),
                   _bus_watch_data_available=world.event(False, "watch"), firmware_version="1.0", serial="0001",
                   transaction_lock=world.lock("transaction"), exceptions_on_send=True)
     A = Attrs(interp, drv)
@@ -218,6 +218,35 @@ def units(tier):
         ctx.prove("serial-read-then-connected", drv.serial is not None and drv.connected.flag is True)
         ctx.prove("watcher-started", any(e[0] == "create_task" and "_bus_watch" in str(e[1]) for e in world.log))
     unit("tridonic/handshake", r_handshake)
+
+
+    # ------------------------------------------------------------ loss of the gateway in the middle of the handshake
+    for stage in ("before-version", "after-version"):
+        def r_midshake(ctx, interp, fn, stage=stage):
+            """the driver is connecting: no watcher task yet, nothing in flight, `connected` clear; the version reply has
+            / has not been processed.  Losing the gateway now must leave NO handshake state behind, otherwise the next
+            handshake takes the version reply for the serial reply"""
+            world = World(ctx, interp)
+            install(interp, world)
+            drv = mk_tridonic(ctx, world, connected=world.event(False, "connected"), _bus_watch_task=None,
+                              firmware_version=("3.7" if stage == "after-version" else None), serial=None)
+            out = world.run(HID.hid.disconnect, drv, reconnect=True)
+            ctx.cover()
+            ctx.prove("never-raises", out[0] == "return", detail="outcome %r" % (out[:2],))
+            ctx.prove("handshake-state-forgotten", drv.firmware_version is None and drv.serial is None,
+                      detail="firmware_version=%r serial=%r survive the loss" % (drv.firmware_version, drv.serial))
+            ctx.prove("reported-and-reconnection-scheduled", status_reports(world) == ["disconnected"]
+                      and any(e[0] == "create_task" for e in world.log))
+            # and the repeated handshake then starts from the beginning
+            A_ = Attrs(interp, drv)
+            A_["_f"] = 9
+            rep = mk_report(ctx, [0x01] + [ctx.int("v%d" % i, 0, 255) for i in range(63)])
+            nw = len(world.writes)
+            world.run(HID.tridonic._handle_read, drv, rep)
+            ctx.prove("repeated-handshake-reads-the-version-then-asks-for-the-serial",
+                      drv.firmware_version is not None and drv.serial is None and len(world.writes) == nw + 1
+                      and bytes_equal(world.writes[-1][1], GW.tridonic_init_report(2)) and Not(drv.connected.flag))
+        unit("tridonic/loss-during-handshake/%s" % stage, r_midshake)
 
     # ------------------------------------------------------------ serial gateways: silence
     for gw in ("luba", "sci"):
